@@ -42,6 +42,7 @@ type Solver struct {
 	pend    []string  // commands not yet written to the solver
 	marks   []int     // positions in pend of unflushed "(push)" commands
 	Elided  int
+	Unknowns int
 }
 
 func NewSolver(kind SolverKind, timeoutMs int) (*Solver, error) {
@@ -176,6 +177,11 @@ func (s *Solver) Check() string {
 	}
 	if bad {
 		return "unknown"
+	}
+	if res == "unknown" {
+		s.Send("(get-info :reason-unknown)")
+		s.LastErr = strings.Join(s.readUntilMarker(), " ")
+		s.Unknowns++
 	}
 	return res
 }
